@@ -61,3 +61,25 @@ def streams(tier, rng):
         L.make_stream("c03-budget-premise", "c03", aimed, hist=L.histogram(aimed),
                       describe="explicit size; min_time/max_time at the elapsed time of a round -1/0/+1 tick"),
     ]
+
+
+MANIFEST = {
+    "text": "Coq theorems about an executable model of bench_loop_threaded (Model/Loop.v: modes, rem_samples saturating per raw sample, "
+            "loop condition, test-mode break, early return, Stats.sample_count/iter_count), for every history of per-thread raw samples: "
+            "explicit size s, count n (default = generated constant = 100), T >= 1 threads and no binding time limit => exactly "
+            "ceil(n/T) rounds, T*ceil(n/T) recorded samples, every round of size s, s*ceil(n/T) calls per thread (C03_exact_counts); "
+            "test mode => one round of size 1 per thread, nothing stored (C03_test_mode_once); n = 0, s = 0 or max_time = 0 => no round in "
+            "either mode (C03_zero_runs_nothing); reported samples/iters = recorded count and count x size (C03_reported_figures); the "
+            "boolean specification evaluated on the implementation holds of the model for every history (C03_model_sb). The model is tied "
+            "to the code by differential execution of the real loop under the virtual clock (hx-loop) and by the generated constants.",
+    "note": "All theorems full strength, closed under the global context. Trusted: Coq kernel, extraction, OCaml driver, hooks H1-H3, "
+            "hx-loop harness, the hand-written model as validated by the correspondence streams. Assumed, not proved here: the pool returns "
+            "one raw sample per thread in thread order with index 0 = caller (C06), each raw sample is sample_size calls (C01); the ways of "
+            "setting the options are C15's subject; the printed samples/iters cells are not compared end to end (only Stats fields).",
+    "technique": "machine-checked proof in Coq (closed-form invariant of the loop state over the executed prefix, least-index argument) "
+                 "+ history-driven differential correspondence against the real crate + extracted boolean specification on implementation outputs",
+}
+
+
+def shrink(item, rerun_case):
+    return L.shrink_item(item, rerun_case)
